@@ -56,6 +56,7 @@ var c12Reqs = []c12Req{
 	{"x-ext-resolve-finish", `{ x1 x2 }`, nil, nil, "failing", map[string]string{"E1.RE": "error", "E2.RE": "string", "E3.RE": "error"}},
 	{"x-ext-exec-finish", `{ x1 }`, nil, nil, "failing", map[string]string{"E1.EE": "error", "E2.EE": "error", "E3.EE": "int", "E1.VE": "error"}},
 	{"x-ext-parse-finish", `{ x1 }`, nil, nil, "failing", map[string]string{"E1.PE": "error", "E2.PE": "error", "E3.PE": "error"}},
+	{"d-fieldresolver", `{ plainFR { name n echoArg(x:5, y:2) e2: echoArg } p2: plainFR { echoArg(x:5, y:2) } }`, nil, nil, "valid", nil},
 	{"d-struct-a", `{ plainA { name n tag } }`, nil, nil, "valid", nil},
 	{"d-struct-b", `{ plainB { name n tag } }`, nil, nil, "valid", nil},
 	{"d-ptr-map", `{ plainPtr { name n tag } plainMap { name n tag } plainTagged { name n tag } }`, nil, nil, "valid", nil},
